@@ -275,6 +275,7 @@ def expected_obs(c, acc, sch):
 
 def run_cases(ctx, cases):
     res = ctx.run_impl("writer_impl.py", {"cases": cases})["cases"]
+    ctx.log("implementation ran %d cases" % len(cases))
     hist = [(c, o) for c, o in zip(cases, res) if c["kind"] != "crash"]
     crash = [(c, o) for c, o in zip(cases, res) if c["kind"] == "crash"]
     # ---------------- tie: model variant of the format reproduces result codes and md.load
@@ -291,6 +292,7 @@ def run_cases(ctx, cases):
     if errs:
         ctx.break_("correspondence:coqc-evaluation", "\n".join(errs))
         return
+    ctx.log("hand models evaluated on %d (case, variant) pairs" % len(coqcases))
     badset = {jobs[i] for i in bad}
     # the translated write() programs (Gen/WriterPrograms.v) must reproduce the implementation too: this is the
     # tie of the reflection theorems (validates-before-mutation, schema-complete) to the code
@@ -303,6 +305,7 @@ def run_cases(ctx, cases):
     gbad, gerrs = ctx.coq_mismatches(["MD.Writer.Model", "MD.Gen.WriterPrograms"],
                                      ("string * list nat * list batch", "list res * option (list orow)"),
                                      "case_eqb", "run_gen", gcases)
+    ctx.log("translated programs evaluated on %d cases" % len(gcases))
     if gerrs:
         ctx.break_("correspondence:coqc-evaluation(write programs)", "\n".join(gerrs))
     else:
